@@ -254,6 +254,11 @@ def random_ops(rec: Recorder, rng: random.Random, sizeB: int, nops: int, *, unit
     the position left by earlier calls (for objects whose cursor another object may legitimately move)."""
     def pick_off():
         r = rng.random()
+        if r < 0.2:
+            # close to where the stream is now (what was served last - a cluster, a table, a read-ahead window - may be remembered)
+            near = int(rec.s.tell()) + rng.choice([-1, 1]) * rng.choice([rng.randrange(0, 4096), rng.randrange(0, 262144), unit, unit // 2])
+            return max(0, min(sizeB + 9, near))
+        r = (r - 0.2) / 0.8
         if r < 0.35:
             b = rng.randrange(0, sizeB // unit + 2) * unit
             return max(0, min(sizeB + 9, b + rng.choice([0, 0, -1, 1, -512, 512, -8, 8, -513, 7])))
@@ -265,6 +270,8 @@ def random_ops(rec: Recorder, rng: random.Random, sizeB: int, nops: int, *, unit
         r = rng.random()
         if r < 0.1:
             return rng.choice([0, -1, 8, 16])
+        if r < 0.2:
+            return rng.choice([24576, 40960, 100000, 131072, 131072 + 512, 65536 - 512, 1000])
         if r < 0.4:
             return rng.choice([512, 4096, 8192, unit, unit + 512, 2 * unit, unit - 8])
         return rng.randrange(16, max(17, big))
